@@ -295,7 +295,7 @@ let ops_of_line env line : op list =
        driver unlistens v after the line in which l was called, and v's own call in that very transaction is
        unspecified (it depends on which callback runs first) so it is censored on both sides *)
     env.killers <- (int_of_string l, int_of_string v) :: env.killers; [OListen (nat l, obj env s)]
-  | ["listen_c"; l; c] -> [OListenC (nat l, nat_of_int (8 * (500 + int_of_string l) + 1), obj env c)]
+  | [("listen_c" | "listen_cw"); l; c] -> [OListenC (nat l, nat_of_int (8 * (500 + int_of_string l) + 1), obj env c)]
   | ["unlisten"; l] | ["drop_weak"; l] -> [OUnlisten (nat l)]
   | ["{"] -> [OBegin]
   | ["}"] -> [OEnd]
